@@ -53,7 +53,7 @@ ROUTES = {
     "from_numpy-slice": ("V", ["slice", _x, 1, 4, None]),
     "diag_matrix()-of-from_numpy": ("M", ["dmat", ["vec", "y"]]),
 }
-SHAPES = ["all-discrete", "mixed", "discrete-only-in-constraint"]
+SHAPES = ["all-discrete", "mixed", "discrete-only-in-constraint", "vector-reductions-only"]
 
 
 def decls_for(domain, odd_bounds=False, via=None):
@@ -137,6 +137,16 @@ def make_problem(route, domain, shape, nonlinear, odd):
     lin_all = total([el_node(i, nm) for i, nm in enumerate(els)])
     cons = []
     big = 83332.62 if odd == "large" else 0.0
+    if shape == "vector-reductions-only" and kind == "V":
+        # objective and constraint are reductions of ONE vector object (a knapsack): nothing else mentions a variable
+        nel = len(elements(D, kind, node))
+        w = [1.0 + 0.5 * i for i in range(nel)]
+        obj = ["sum", ["vpow", ["vbin", "-", node, ["arr", [0.3 + 0.2 * i for i in range(nel)]]], 2]] if nonlinear else ["matmul", ["arr", w], node]
+        prob = {"decls": decls, "objective": obj, "sense": "min", "constraints": [["rel", ">=", ["sum", node], ["raw", 0.5 + big, "float"], "direct"]]}
+        if odd in ("pinned-some", "pinned-all"):
+            pin = els[:1] if odd == "pinned-some" else els
+            prob["bound_edits"] = {nm: [1.0 if domain == "binary" else 2.0] * 2 for nm in pin if not nm.startswith("_diag_")}
+        return prob, els
     if shape == "all-discrete":
         obj = total(terms)
         cons.append(["rel", ">=", lin_all, ["raw", 0.5 + big, "float"], "direct"])
